@@ -19,10 +19,10 @@ def one(d):
             (root / "src" / core.PKG / meta["file"]).write_text((d / "new.py").read_text())
             res = mutate.run_props(root, allp)
     except Exception as exc:
-        return {"id": d.name, **meta, "status": "error", "err": repr(exc)[:200]}
+        return {**meta, "id": d.name, "status": "error", "err": repr(exc)[:200]}
     fired = sorted({v[0] for p, (code, viol, es) in res.items() for v in viol})
     errs = sorted({e.split(":")[0] for p, (code, viol, es) in res.items() for e in es})
-    return {"id": d.name, **meta, "status": "killed" if fired else ("error-only" if errs else "missed"), "rules": fired[:6], "errors": errs[:4]}
+    return {**meta, "id": d.name, "status": "killed" if fired else ("error-only" if errs else "missed"), "rules": fired[:6], "errors": errs[:4]}
 
 if __name__ == "__main__":
     out = Path(sys.argv[1]); jobs = 6; only = None
